@@ -574,6 +574,9 @@ def rand_udp_program(rng):
         if rng.random() < 0.85:
             ops.append({"t": 0, "op": "bind", "s": s, "a": UDP_HOME[s], "p": port[s]})
             bound[s] = (UDP_HOME[s], port[s])
+    for s in list(bound):
+        if rng.random() < 0.25:
+            ops.append({"t": 0, "op": "move", "s": s})
     for s in ("r1", "r2", "r3", "s1"):
         if s in bound and rng.random() < 0.8:
             nb = rng.randint(1, 3)
@@ -1638,3 +1641,144 @@ def c15(ctx):
 
 
 REPLAYERS["C15"] = "replay-http-parse"
+
+
+# ---------------------------------------------------------------------------
+# C01: deterministic replay across environments
+
+C01_ENVS = [
+    ("fresh", {}, []),
+    ("perturb-5a", {"MALLOC_PERTURB_": "90"}, []),
+    ("perturb-a5+noaslr+heapnoise", {"MALLOC_PERTURB_": "165", "VH_HEAP_NOISE": "7"}, ["setarch", "x86_64", "-R"]),
+    ("after-warmup-simulation+heapnoise", {"VH_WARMUP": "1", "VH_HEAP_NOISE": "11", "MALLOC_PERTURB_": "127"}, []),
+]
+
+
+@check("C01", "model_checking")
+def c01(ctx):
+    import random, concurrent.futures, subprocess as sp, filecmp
+    q = ctx.tier == "quick"
+    ctx.rule = ("the same programs (TCP with lossy routes/NAT/pcap, UDP with moves/closes/pcap, resolver, timers/posts) are "
+                "executed in 4 environments (fresh process; MALLOC_PERTURB_=0x5a; MALLOC_PERTURB_=0xa5 + ASLR off + fragmented "
+                "heap; in-process after a different warm-up simulation that advanced the clock, consumed ports and dirtied "
+                "freed heap, + fragmented heap) with the -O2 build; the complete recorded traces (handlers, order, virtual "
+                "times, error codes, byte counts, located payload, endpoints) and the capture files must be byte-identical; "
+                "the design part (one schedule per program) is TLC's ExclusiveInternal invariant of SimCore.tla and every one "
+                "of these traces is also one the other checks validate against the specification; non-trivial = program whose "
+                "trace has >= 5 events of >= 2 kinds; distinct by program")
+    ctx.assumptions = ["dump_network_graph prints pointer values by design and is out of scope",
+                       "setarch -R may be unavailable in a container: the environment then only differs by heap state"]
+    vlib.tlc_mc(ctx, "MCSimCore.tla", "MC_SimCore.cfg", timeout=900)
+    rng = random.Random(ctx.seed)
+    binary = ctx.binary("opt")
+    base = ctx.path("c01")
+    os.makedirs(base, exist_ok=True)
+    corp = {}
+    # corpora (same files for every environment; pcap paths are rewritten per environment)
+    def write(name, progs):
+        corp[name] = progs
+    write("tcp", [rand_tcp_program(rng) for _ in range(50 if q else 1200)])
+    write("udp", [rand_udp_program(rng) for _ in range(150 if q else 3000)])
+    res_f = ctx.path("c01_res.ndjson")
+    rand_resolver_programs(ctx.seed, 300 if q else 5000, res_f)
+    sim_f = ctx.path("c01_sim.ndjson")
+    vlib.tlc_gen(ctx, "GenSimCore.tla", "Gen_SimCore_sim.cfg", sim_f, simulate=(150 if q else 3000, 300))
+    setarch_ok = sp.run(["setarch", "x86_64", "-R", "true"], stdout=sp.DEVNULL, stderr=sp.DEVNULL).returncode == 0
+    jobs = []
+    for ename, env, prefix in C01_ENVS:
+        d = os.path.join(base, ename)
+        os.makedirs(os.path.join(d, "pcap"), exist_ok=True)
+        if prefix and not setarch_ok:
+            prefix = []
+        for name in ("tcp", "udp"):
+            f = os.path.join(d, name + ".ndjson")
+            with open(f, "w") as fh:
+                for i, p in enumerate(corp[name]):
+                    p2 = dict(p)
+                    if name == "udp":
+                        for o in p2["ops"]:
+                            if o["op"] == "send" and sum(o["bufs"]) > 65507:
+                                o["bufs"] = [65507]
+                    p2["pcap"] = "pcap/%s%d.pcap" % (name[0], i)
+                    fh.write(json.dumps(p2) + "\n")
+            jobs.append((ename, name, "record-" + name, f, d, env, prefix))
+        for name, src, sub in (("res", res_f, "record-resolver"), ("sim", sim_f, "replay-simcore")):
+            f = os.path.join(d, name + ".ndjson")
+            import shutil
+            shutil.copy(src, f)
+            jobs.append((ename, name, sub, f, d, env, prefix))
+
+    def run(job):
+        ename, name, sub, f, d, env, prefix = job
+        e = dict(os.environ)
+        e.update(env)
+        e["VH_WALL_LIMIT"] = "1500"
+        with open(f + ".out", "w") as o, open(f + ".err", "w") as er:
+            r = sp.run(prefix + ["timeout", "1500", binary, sub, os.path.basename(f), "0", str(ctx.seed)], cwd=d, stdout=o, stderr=er, env=e)
+        return job, r.returncode
+    with concurrent.futures.ThreadPoolExecutor(max_workers=vlib.NPROC) as ex:
+        done = list(ex.map(run, jobs))
+    for job, rc in done:
+        if rc != 0:
+            ename, name = job[0], job[1]
+            errtxt = open(job[3] + ".err", errors="replace").read()[-1500:]
+            ctx.violation("c01.run-failed(%s,%s)" % (name, "rc%d" % rc), "environment %s: %s" % (ename, errtxt), {"corpus": name, "env": ename}, {})
+    ref = C01_ENVS[0][0]
+    def first_diff(a, b):
+        with open(a, errors="replace") as fa, open(b, errors="replace") as fb:
+            n = 0
+            for la, lb in zip(fa, fb):
+                n += 1
+                if la != lb:
+                    return n, la[:300], lb[:300]
+            return None
+    for name, suffix in (("tcp", ".ndjson.trace"), ("udp", ".ndjson.trace"), ("res", ".ndjson.trace"), ("sim", ".ndjson.out")):
+        fa = os.path.join(base, ref, name + suffix)
+        nprog = sum(1 for _ in open(os.path.join(base, ref, name + ".ndjson")))
+        ctx.evaluations += nprog * len(C01_ENVS)
+        ctx.traces += nprog * len(C01_ENVS)
+        for ename, _, _ in C01_ENVS[1:]:
+            fb = os.path.join(base, ename, name + suffix)
+            if not os.path.exists(fa) or not os.path.exists(fb):
+                continue
+            if not filecmp.cmp(fa, fb, shallow=False):
+                d = first_diff(fa, fb)
+                if d is None:
+                    d = (0, "(one file is a prefix of the other)", "")
+                try:
+                    kind = json.loads(d[1]).get("e", "?")
+                except ValueError:
+                    kind = "?"
+                ctx.violation("c01.trace-differs(%s,%s)" % (name, kind), "%s vs %s at line %d:\n  %s  %s" % (ref, ename, d[0], d[1], d[2]),
+                              {"corpus": name, "env": ename, "line": d[0], "ref": d[1], "other": d[2]}, {})
+        if name == "sim":
+            bad = [l for l in open(fa) if '"ok":false' in l]
+            # mismatches with the specification are C02/C03's business; only determinism is judged here
+        if name in ("tcp", "udp"):
+            pa = os.path.join(base, ref, "pcap")
+            for fn in sorted(os.listdir(pa)):
+                if not fn.startswith(name[0]):
+                    continue
+                for ename, _, _ in C01_ENVS[1:]:
+                    pb = os.path.join(base, ename, "pcap", fn)
+                    if os.path.exists(pb) and not filecmp.cmp(os.path.join(pa, fn), pb, shallow=False):
+                        ctx.violation("c01.pcap-differs(%s)" % name, "capture %s differs between %s and %s" % (fn, ref, ename),
+                                      {"corpus": name, "file": fn, "env": ename}, {})
+                        break
+        # non-trivial programs
+        if suffix.endswith(".trace") and os.path.exists(fa):
+            run_ev, kinds = 0, set()
+            for line in open(fa):
+                if line.startswith('{"e":"Cfg"'):
+                    run_ev, kinds = 0, set()
+                run_ev += 1
+                kinds.add(line[:14])
+                if line.startswith('{"e":"End'):
+                    if run_ev >= 5 and len(kinds) >= 2:
+                        ctx.nontrivial.add((name, len(ctx.nontrivial)))
+        elif name == "sim":
+            for k, line in enumerate(open(os.path.join(base, ref, "sim.ndjson"))):
+                if line.count('"a":') >= 5:
+                    ctx.nontrivial.add(("sim", k))
+    ctx.add_sample({"environments": [e[0] for e in C01_ENVS], "corpora": {k: len(v) for k, v in corp.items()}})
+    ctx.add_sample(corp["udp"][0])
